@@ -176,7 +176,7 @@ fn run(args: &Args, rep: &mut Report) {
         rep.add(&format!("{}/plain-build", s["name"].as_str().unwrap_or("?")), s["exhaustive"].as_bool().unwrap_or(false), s["bound"].as_str().unwrap_or(""), vec![acc]);
     }
     if args.tier == vcore::rt::Tier::Thorough {
-        checks::fuzzrun::campaign(rep, args, "robust", 300000, checks::oracle::fuzz_robust);
+        checks::fuzzrun::campaign(rep, args, "robust", 120000, checks::oracle::fuzz_robust);
     }
 }
 
